@@ -405,13 +405,23 @@ INDEPENDENT_LOOPS = [
      {'fluxes', 'fluxerrs', 'areas'}),
     ('C16', 'photutils/aperture/stats.py', 'ApertureStats._make_aperture_cutouts', 'zip(',
      {'data_cutouts', 'variance_cutouts', 'mask_cutouts', 'weight_cutouts', 'overlaps'}),
+    # per-source loops of SourceCatalog: row k is computed from row k's own inputs only (C07
+    # "each row depends only on ..."; C08: the same value whether the row is computed in the
+    # parent or in a sliced child, where it has other predecessors)
+    ('C08', 'photutils/segmentation/catalog.py', 'SourceCatalog._local_background', 'bkg_apers',
+     {'local_bkgs'}),
+    ('C07', 'photutils/segmentation/catalog.py', 'SourceCatalog._local_background', 'bkg_apers',
+     {'local_bkgs'}),
+    ('C07', 'photutils/segmentation/catalog.py', 'SourceCatalog.cutout_minval_index', 'data', {'idx'}),
+    ('C07', 'photutils/segmentation/catalog.py', 'SourceCatalog.cutout_maxval_index', 'data', {'idx'}),
+    ('C08', 'photutils/segmentation/catalog.py', 'SourceCatalog._fluxfrac_optimizer_args', 'zip(',
+     {'args'}),
 ]
 
 
 def _names_read_before_written(body):
     """Names (and dict['key'] / self.attr paths) read in a loop body before being written in the
     same iteration, and the set of all names written anywhere in the body."""
-    written_first = set()
     read_first = set()
     written = set()
 
@@ -474,21 +484,73 @@ def _names_read_before_written(body):
                     out.append(nm + '[*]')
         return out
 
-    def visit(stmts):
+    def note_reads(rs, wf):
+        for r in rs:
+            base = r.split('[')[0].split('.')[0]
+            if r not in wf and base not in wf:
+                read_first.add(r)
+
+    def visit(stmts, wf):
+        """wf: names *definitely* written earlier in this iteration on every path reaching here.
+        Returns (wf after the statements, whether control can fall through them)."""
+        wf = set(wf)
         for s in stmts:
-            if isinstance(s, (ast.If, ast.For, ast.While, ast.With, ast.Try)):
-                # conservative: reads in the header first, then the nested blocks in order
-                hdr = [getattr(s, 'test', None), getattr(s, 'iter', None)]
-                for h in hdr:
-                    if h is not None:
-                        for r in reads(h):
-                            base = r.split('[')[0].split('.')[0]
-                            if r not in written_first and base not in written_first:
-                                read_first.add(r)
-                for blk in ('body', 'orelse', 'finalbody'):
-                    visit(getattr(s, blk, []) or [])
-                for h in getattr(s, 'handlers', []) or []:
-                    visit(h.body)
+            if isinstance(s, (ast.Continue, ast.Break, ast.Return, ast.Raise)):
+                if isinstance(s, (ast.Return, ast.Raise)) and getattr(s, 'value', None) is not None:
+                    note_reads(reads(s), wf)
+                elif isinstance(s, ast.Raise) and s.exc is not None:
+                    note_reads(reads(s), wf)
+                return wf, False
+            if isinstance(s, ast.If):
+                note_reads(reads(s.test), wf)
+                wb, fb = visit(s.body, wf)
+                wo, fo = visit(s.orelse or [], wf)
+                if fb and fo:
+                    wf = wb & wo            # written on both branches
+                elif fb:
+                    wf = wb
+                elif fo:
+                    wf = wo
+                else:
+                    return wf, False
+                continue
+            if isinstance(s, (ast.For, ast.While)):
+                hdr = s.iter if isinstance(s, ast.For) else s.test
+                note_reads(reads(hdr), wf)
+                inner = set(wf)
+                if isinstance(s, ast.For):
+                    for n in ast.walk(s.target):
+                        if isinstance(n, ast.Name):
+                            inner.add(n.id)
+                            written.add(n.id)
+                visit(s.body, inner)        # may run zero times: nothing becomes definite
+                visit(s.orelse or [], wf)
+                continue
+            if isinstance(s, ast.With):
+                for it in s.items:
+                    note_reads(reads(it.context_expr), wf)
+                wf, ft = visit(s.body, wf)
+                if not ft:
+                    return wf, False
+                continue
+            if isinstance(s, ast.Try):
+                wb, fb = visit(s.body, wf)
+                if fb and s.orelse:
+                    wb, fb = visit(s.orelse, wb)
+                # normal path: everything the body wrote; a handler is entered after some prefix
+                # of the body, so on that path only what was definite before the try plus the
+                # handler's own writes count.  Definite afterwards = written on every path.
+                outs = [wb] if fb else []
+                for h in s.handlers:
+                    wh, fh = visit(h.body, wf)
+                    if fh:
+                        outs.append(wh)
+                if not outs:
+                    return wf, False
+                after = set.intersection(*outs)
+                wf, ft = visit(s.finalbody or [], after)
+                if not ft:
+                    return wf, False
                 continue
             rhs = []
             if isinstance(s, ast.Assign):
@@ -501,15 +563,12 @@ def _names_read_before_written(body):
                 rhs = reads(s.value) + [p for p in [path(s.target)] if p]
             else:
                 rhs = reads(s)
-            for r in rhs:
-                base = r.split('[')[0].split('.')[0]
-                if r not in written_first and base not in written_first:
-                    read_first.add(r)
+            note_reads(rhs, wf)
             for w in writes_of(s):
                 written.add(w)
-                if w not in read_first:
-                    written_first.add(w)
-    visit(body)
+                wf.add(w)
+        return wf, True
+    visit(body, set())
     return read_first, written
 
 
@@ -920,8 +979,10 @@ def run(prop, tier):
                                       text=f'{t}: no in-place write reaches {only[t]}'))
     if prop == 'C08':
         obs += ownership_obligations(world, 'C08')
-    if prop == 'C13':
-        obs += copy_ownership_obligations(world, 'C13')
+    if prop in ('C13', 'C09'):
+        # C09: state written in place by evaluation and shared with copies is exactly the kind of
+        # per-object memory that makes a result depend on earlier calls
+        obs += copy_ownership_obligations(world, prop)
     obs += loop_obligations(world, prop)
     if prop == 'C06':
         obs += schedule_obligations(world, prop)
